@@ -9,30 +9,79 @@ open ErgoVerif.Cron
 def inWindow (sinceNs periodNs m : Int) : Prop :=
   sinceNs / minuteNs ≤ m ∧ m * minuteNs < (sinceNs / minuteNs) * minuteNs + periodNs
 
-theorem mem_window (sinceNs periodNs m : Int) : m ∈ window sinceNs periodNs ↔ inWindow sinceNs periodNs m := by
-  unfold window inWindow minuteNs
-  simp only [List.mem_map, List.mem_range]
-  constructor
-  · rintro ⟨i, hi, rfl⟩
-    split at hi
-    · omega
-    · simp only [Int.ofNat_eq_natCast]
-      omega
-  · rintro ⟨h1, h2⟩
-    refine ⟨(m - sinceNs / 60000000000).toNat, ?_, ?_⟩
-    · split
-      · omega
-      · omega
-    · simp only [Int.ofNat_eq_natCast]
+theorem mem_windowLoop (fuel : Nat) (now e : Int) (hf : e - now ≤ fuel * minuteNs) (x : Int) :
+    x ∈ windowLoop now e fuel ↔ ∃ i : Nat, x = now + i * minuteNs ∧ x < e := by
+  unfold minuteNs at *
+  induction fuel generalizing now with
+  | zero =>
+    simp only [windowLoop, List.not_mem_nil, false_iff]
+    rintro ⟨i, rfl, h⟩
+    omega
+  | succ fuel ih =>
+    simp only [windowLoop]
+    split
+    · rename_i hlt
+      simp only [List.mem_cons]
+      rw [ih (now + minuteNs) (by unfold minuteNs; omega)]
+      unfold minuteNs
+      constructor
+      · rintro (rfl | ⟨i, rfl, h⟩)
+        · exact ⟨0, by omega, hlt⟩
+        · exact ⟨i + 1, by omega, h⟩
+      · rintro ⟨i, rfl, h⟩
+        cases i with
+        | zero => left; omega
+        | succ j => right; exact ⟨j, by omega, h⟩
+    · rename_i hge
+      simp only [List.not_mem_nil, false_iff]
+      rintro ⟨i, rfl, h⟩
       omega
 
+theorem windowLoop_ge (fuel : Nat) (now e : Int) : ∀ x ∈ windowLoop now e fuel, now ≤ x := by
+  induction fuel generalizing now with
+  | zero => simp [windowLoop]
+  | succ fuel ih =>
+    simp only [windowLoop]
+    split
+    · intro x hx
+      rcases List.mem_cons.mp hx with rfl | hx
+      · omega
+      · have := ih (now + minuteNs) x hx
+        unfold minuteNs at this; omega
+    · simp
+
+theorem windowLoop_sorted (fuel : Nat) (now e : Int) :
+    (windowLoop now e fuel).Pairwise (fun a b => a / minuteNs < b / minuteNs) := by
+  induction fuel generalizing now with
+  | zero => simp [windowLoop]
+  | succ fuel ih =>
+    simp only [windowLoop]
+    split
+    · rw [List.pairwise_cons]
+      refine ⟨?_, ih _⟩
+      intro x hx
+      have := windowLoop_ge fuel (now + minuteNs) e x hx
+      unfold minuteNs at *; omega
+    · simp
+
+theorem mem_window (sinceNs periodNs m : Int) : m ∈ window sinceNs periodNs ↔ inWindow sinceNs periodNs m := by
+  unfold window windowNs inWindow
+  simp only [List.mem_map]
+  have hf : (sinceNs / minuteNs * minuteNs + periodNs) - sinceNs / minuteNs * minuteNs ≤ periodNs.toNat * minuteNs := by
+    unfold minuteNs; omega
+  constructor
+  · rintro ⟨x, hx, rfl⟩
+    obtain ⟨i, rfl, h⟩ := (mem_windowLoop _ _ _ hf x).mp hx
+    unfold minuteNs at *; omega
+  · rintro ⟨h1, h2⟩
+    refine ⟨m * minuteNs, (mem_windowLoop _ _ _ hf _).mpr ⟨(m - sinceNs / minuteNs).toNat, ?_, h2⟩, ?_⟩
+    · unfold minuteNs at *; omega
+    · unfold minuteNs; omega
+
 theorem window_sorted (sinceNs periodNs : Int) : (window sinceNs periodNs).Pairwise (· < ·) := by
-  unfold window
-  simp only
+  unfold window windowNs
   rw [List.pairwise_map]
-  have : (List.range (if periodNs ≤ 0 then 0 else ((periodNs + minuteNs - 1) / minuteNs).toNat)).Pairwise (· < ·) :=
-    List.pairwise_lt_range
-  exact this.imp (by intro a b h; simp only [Int.ofNat_eq_natCast]; omega)
+  exact windowLoop_sorted _ _ _
 
 /-- JobSchedule of a present job: exactly the minutes of the window at which its masks run, ascending -/
 theorem jobSchedule_spec (civil : CivilFn) (s : Sched) (name : Nat) (sinceNs periodNs : Int) (l : List Int)
